@@ -1281,3 +1281,74 @@ func rshort(fn *ssa.Function) string {
 	}
 	return name
 }
+
+// throughHelper: v is the single result of a call of a repo function that has exactly one return statement: the value
+// that statement returns, with the helper's parameters bound to the call's arguments (paramBindings). Otherwise v.
+func throughHelper(v ssa.Value) ssa.Value {
+	call, ok := v.(*ssa.Call)
+	if !ok || theCtx == nil {
+		return v
+	}
+	sc := call.Call.StaticCallee()
+	if sc == nil || sc.Blocks == nil || !theCtx.inRepo(sc) || sc.Signature.Results().Len() != 1 {
+		return v
+	}
+	rets := returnsOf(sc)
+	if len(rets) != 1 || len(rets[0].Results) != 1 {
+		return v
+	}
+	args := call.Call.Args
+	for i, p := range sc.Params {
+		if i < len(args) {
+			bindParam(p, args[i])
+		}
+	}
+	return rets[0].Results[0]
+}
+
+// boundValue: a helper's parameter stands for the one argument it was bound to (see throughHelper); other values are
+// returned unchanged.
+func boundValue(v ssa.Value) ssa.Value {
+	if p, ok := v.(*ssa.Parameter); ok {
+		if b := paramBindings[p]; len(b) == 1 {
+			return b[0]
+		}
+	}
+	return v
+}
+
+// withHelpers: fn and the functions of its own package it statically calls (transitively, depth d), with the helpers'
+// parameters bound to the arguments of those calls (paramBindings): a rule that looks for a construct "in Select" finds
+// it after the construct was extracted into a helper.
+func withHelpers(fn *ssa.Function, d int) []*ssa.Function {
+	out := []*ssa.Function{fn}
+	seen := map[*ssa.Function]bool{fn: true}
+	var walk func(f *ssa.Function, d int)
+	walk = func(f *ssa.Function, d int) {
+		if d == 0 {
+			return
+		}
+		eachInstr(f, func(in ssa.Instruction) {
+			cc := getCall(in)
+			if cc == nil {
+				return
+			}
+			sc := cc.StaticCallee()
+			if sc == nil || sc.Blocks == nil || sc.Pkg != fn.Pkg || sc.Parent() != nil {
+				return
+			}
+			for i, p := range sc.Params {
+				if i < len(cc.Args) {
+					bindParam(p, cc.Args[i])
+				}
+			}
+			if !seen[sc] {
+				seen[sc] = true
+				out = append(out, sc)
+				walk(sc, d-1)
+			}
+		})
+	}
+	walk(fn, d)
+	return out
+}
